@@ -127,7 +127,7 @@ func runC08(r *ev.Run) {
 	if r.Thorough() {
 		depth = 4
 	}
-	r.Rule = fmt.Sprintf("every sequence of length <=%d (quick tier: every sequence of length 2, and of length 3 over the 8 operations that move pages, roots or definitions) over an alphabet of %d write transactions committed by a real SQLite connection in another process (insert, update, delete, bulk insert growing the file past its size at Open, delete+VACUUM shrink, VACUUM to another page size, create/drop table, create/drop index, ALTER TABLE ADD COLUMN, drop+recreate a table under the same name, WITHOUT ROWID change, incremental_vacuum) from 4 base databases (8 pages; auto_vacuum; legacy file format with DESC indexes, which a VACUUM turns into format 4; 300+ pages > the 100 page cache with sequences one step shorter); handles opened at depth 0 and at every later depth, plus at every depth two handles whose first transaction comes only after the next commit (one starting with the high level API, one with RLock + low level reads) and one opened at depth 0 that is first read after the last commit; the sequences of length <=2 (all, thorough) are run again with a writer that uses synchronous=OFF and, after every commit, opens its next transaction at once and leaves it open while the handles read (RESERVED lock, journal header already complete); one handle whose first call after every commit is Columns() of every table (compared with a fresh handle; dropped tables must be unknown); after every step every awake handle is read through the high level API and through the low level API inside RLock/RUnlock, twice; oracle: equals SQLite's dump of the file at that moment and a freshly opened handle's dump. kept objects: a low level handle keeps its *Table / *Index / *NonRowidTable from its first transaction; after every commit of every sequence of <=2 (3 thorough) row changes out of 5 its next transaction starts with a scan, rowid lookup or keyed scan through a kept object (every choice of the first one) and must equal a fresh handle's (a write that changes sqlite_master ends the history). stopped-then-commit histories: a read stopped by its callback after k rows (4 kinds x k at and around the first leaf boundary), a commit by another process (3 kinds), then every kind of read stopped at k and run to its end equals a fresh handle's. read histories with no writer at all: every ordered pair of read operations (the first possibly stopped early) on one handle, the second result is a fresh handle's. interval family: every history of <=5 (6 thorough) steps over {the handle reads, the file becomes unusable (switched to WAL mode / a writer died with spilled pages and a journal), it comes back with a change, a plain commit}: reads fail while it is unusable and equal a fresh handle's whenever it is usable. window family: a handle that has read before reads again (Select, IndexedSelectEq, SelectRowid, PKSelect, Columns, RLock + low level scan) and another process commits {row changes, schema change, delete+VACUUM} at the k-th pager-call boundary of that read, for every k (before the lock request, the reserved probe and every page read, before and after lock and unlock): a commit that was complete before the lock request must be seen by that read, a refused one must not, anything else is the old or the new state as a whole, and the next read sees the final state. non-trivial = sequences containing a write that changes the file", depth, len(c08Alphabet))
+	r.Rule = fmt.Sprintf("every sequence of length <=%d (quick tier: every sequence of length 2, and of length 3 over the 8 operations that move pages, roots or definitions) over an alphabet of %d write transactions committed by a real SQLite connection in another process (insert, update, delete, bulk insert growing the file past its size at Open, delete+VACUUM shrink, VACUUM to another page size, create/drop table, create/drop index, ALTER TABLE ADD COLUMN, drop+recreate a table under the same name, WITHOUT ROWID change, incremental_vacuum) from 4 base databases (8 pages; auto_vacuum; legacy file format with DESC indexes, which a VACUUM turns into format 4; 300+ pages > the 100 page cache with sequences one step shorter; the first base once more with a file change counter of 0xffffffff, which the first commit wraps to 0, for the sequences of <=2); handles opened at depth 0 and at every later depth, plus at every depth two handles whose first transaction comes only after the next commit (one starting with the high level API, one with RLock + low level reads) and one opened at depth 0 that is first read after the last commit; the sequences of length <=2 (all, thorough) are run again with a writer that uses synchronous=OFF and, after every commit, opens its next transaction at once and leaves it open while the handles read (RESERVED lock, journal header already complete); one handle whose first call after every commit is Columns() of every table (compared with a fresh handle; dropped tables must be unknown); after every step every awake handle is read through the high level API and through the low level API inside RLock/RUnlock, twice; oracle: equals SQLite's dump of the file at that moment and a freshly opened handle's dump. kept objects: a low level handle keeps its *Table / *Index / *NonRowidTable from its first transaction; after every commit of every sequence of <=2 (3 thorough) row changes out of 5 its next transaction starts with a scan, rowid lookup or keyed scan through a kept object (every choice of the first one) and must equal a fresh handle's (a write that changes sqlite_master ends the history). stopped-then-commit histories: a read stopped by its callback after k rows (4 kinds x k at and around the first leaf boundary), a commit by another process (3 kinds), then every kind of read stopped at k and run to its end equals a fresh handle's. read histories with no writer at all: every ordered pair of read operations (the first possibly stopped early) on one handle, the second result is a fresh handle's. interval family: every history of <=5 (6 thorough) steps over {the handle reads, the file becomes unusable (switched to WAL mode / a writer died with spilled pages and a journal), it comes back with a change, a plain commit}: reads fail while it is unusable and equal a fresh handle's whenever it is usable. window family: a handle that has read before reads again (Select, IndexedSelectEq, SelectRowid, PKSelect, Columns, RLock + low level scan) and another process commits {row changes, schema change, delete+VACUUM} at the k-th pager-call boundary of that read, for every k (before the lock request, the reserved probe and every page read, before and after lock and unlock): a commit that was complete before the lock request must be seen by that read, a refused one must not, anything else is the old or the new state as a whole, and the next read sees the final state. non-trivial = sequences containing a write that changes the file", depth, len(c08Alphabet))
 	r.Set("depth", depth)
 	c08Window(r)
 	c08Intervals(r)
